@@ -138,6 +138,10 @@ fn add_sources(t: &mut Tape<'_>, c: &mut CmdSpec, depth: usize) {
             };
             a.env = Some((format!("VERIF_C06_{}_{}", depth, id.to_uppercase()), val));
         }
+        if !takes && a.action != Action::Count && t.chance(1, 10) {
+            // a flag whose declared missing-value default differs from the implicit one of its action
+            a.default_missing_values = vec![if a.action == Action::SetTrue { "false".to_owned() } else { "true".to_owned() }];
+        }
         if !takes && a.action != Action::Count && t.chance(1, 5) {
             let val = match t.weighted(&[2, 3, 3, 1]) {
                 0 => None,
